@@ -2,7 +2,8 @@
    branch) as a transition system over a shared disk, an exclusive file lock and any number of
    processes of one garble/Go version, with crashes at every step.  Definitions only. *)
 From Coq Require Import Arith.
-From Verif Require Import Base.Bytes.
+From Coq Require Import String.
+From Verif Require Import Base.Bytes Model.Flags.
 
 Inductive linkfile := LAbsent | LPartial | LComplete.
 Record disk := { link : linkfile; stamp : bool }.    (* stamp = true: the .version file matches this version *)
@@ -60,3 +61,35 @@ Definition inv (s : sys) : Prop :=
   end.
 
 Definition init_ok (s : sys) : Prop := holder s = None /\ (forall p, pcs s p = Idle) /\ disk_ok (d s).
+
+(* ---- executable companion for the search: PatchLinker's calls in an arbitrary order, a kill after
+        any disk effect, then the decision of the next run.  Disk = (stamp, linker file). *)
+Inductive kstamp := SNone | SStale | SCurrent.
+Inductive klink := KAbsent | KStale | KPartial | KCurrent.
+Definition kdisk := (kstamp * klink)%type.
+Definition c_writeVersion := Eval vm_compute in s2b "writeVersion".
+Definition c_buildLinker := Eval vm_compute in s2b "buildLinker".
+(* the disk states a call passes through (a kill can fall after each) *)
+Definition call_effects (c : str) (dk : kdisk) : list kdisk :=
+  if beq c c_writeVersion then [(SCurrent, snd dk)]
+  else if beq c c_buildLinker then [(fst dk, KPartial); (fst dk, KCurrent)]
+  else [].
+(* the next run uses the cached linker iff the stamp is current and the file exists *)
+Definition next_run_uses (dk : kdisk) : bool :=
+  match dk with (SCurrent, KAbsent) => false | (SCurrent, _) => true | _ => false end.
+Definition bad_disk (dk : kdisk) : bool :=
+  next_run_uses dk && match snd dk with KCurrent => false | _ => true end.
+Fixpoint crash_states (calls : list str) (dk : kdisk) : list kdisk :=
+  match calls with
+  | [] => []
+  | c :: r => let effs := call_effects c dk in effs ++ crash_states r (last effs dk)
+  end.
+(* initial disks a correct history leaves: nothing, another version's linker, this version's linker *)
+Definition good_initial : list kdisk := [(SStale, KStale); (SNone, KAbsent); (SCurrent, KCurrent)].
+Definition crash_search (calls : list str) : option (kdisk * nat) :=
+  let runs := flat_map (fun d0 => if next_run_uses d0 then [] else
+                 map (fun p => (d0, fst p, snd p)) (combine (seq 0 (length (crash_states calls d0))) (crash_states calls d0))) good_initial in
+  match filter (fun x => bad_disk (snd x)) runs with
+  | [] => None
+  | (d0, i, _) :: _ => Some (d0, i)
+  end.
